@@ -23,6 +23,7 @@ type vRoute struct {
 	consumes []string
 	produces []string
 	cond     bool // route has an If condition with a nondeterministic result
+	noCT     []string // AllowedMethodsWithoutContentType (nil: the built-in list)
 }
 
 type vService struct {
@@ -201,6 +202,9 @@ func (h *vH) build(router RouteSelector) *Container {
 			}
 			if r.cond {
 				b.If(h.condFn(id))
+			}
+			if r.noCT != nil {
+				b.AllowedMethodsWithoutContentType(r.noCT)
 			}
 			ws.Route(b)
 			id++
@@ -408,7 +412,12 @@ func refConsumes(r vRoute, ct string) int {
 	}
 	emptyV := refNo
 	m := r.method
-	if m == "GET" || m == "HEAD" || m == "OPTIONS" || m == "DELETE" || m == "TRACE" || vContains(r.consumes, MIME_OCTET) {
+	if len(r.noCT) > 0 {
+		// the route's own list replaces the built-in one
+		if vContains(r.noCT, m) || vContains(r.consumes, MIME_OCTET) {
+			emptyV = refYes
+		}
+	} else if m == "GET" || m == "HEAD" || m == "OPTIONS" || m == "DELETE" || m == "TRACE" || vContains(r.consumes, MIME_OCTET) {
 		emptyV = refYes
 	}
 	i := strings.Index(ct, ";")
